@@ -82,6 +82,14 @@ CLAIMED = {
         "(hide / remove legs, wrist correction, holistic reduction) are checked on OpenPose and Holistic-shaped headers on the implementation (only the named points change) — partial: helpers are not modelled in Lean.",
    technique="Lean 4 proof (list/index reasoning over the header transcription) + differential correspondence and name-level oracle",
    design="§5 C11"),
+ "C15": dict(
+   text="Theorems (Props/C15.lean), the executable model instantiated with an arbitrary linearly ordered field: the box sides computed by the model's min / max folds are attained by observed values, contain every observed value and are "
+        "contained in every box that does, and the box is missing exactly when nothing is observed (bbox_tight); translating by the minimum puts the smallest observed coordinate at exactly 0 and keeps the extent (focus_min_zero); flip negates "
+        "exactly that coordinate and is its own inverse (flip_neg_only, flip_involutive, flipBody_spec); the matrix product is the identity for the identity matrix and linear, for 2-D and 3-D points (matmul_id_2/3, matmul_linear_2/3); the "
+        "augmentation matrix is the identity when no deviation is positive (augment_id_when_std_zero); confidences are untouched. Partial: float rounding and numpy's cos / sin are outside the theorems. All transforms are run on NumPy poses "
+        "with dyadic data (exact arithmetic), the random draws of augment2d replayed, and compared with the algebraic clauses and with the model.",
+   technique="Lean 4 proof over an ordered field (Mathlib ring / linarith on the model's folds) + differential correspondence with exact dyadic data",
+   design="§5 C15"),
  "C16": dict(
    text="Theorems (Props/C16.lean): frame selection returns exactly frames ixs[0], ixs[1], … (select_exact); stepping by k ≥ 1 returns frames 0, k, 2k, … all below the frame count and fps / k (step_exact); for EVERY draw the generic dropout's kept list "
         "is strictly increasing, within range, the exact complement of the draw (dropout_kept), of length n − k (dropout_length), drops nothing at fraction 0, drops ⌊n·p⌋ frames i.e. within one frame of n·p (dropout_count), and keeps ≥ 1 frame because the cap "
